@@ -14,7 +14,7 @@ def run(ctx):
     quick = ctx.tier == "quick"
     st = seq.all_stacks(NAMES, 2 if quick else 3)
     parts = 2 if quick else 8
-    jobs = [dict(ctx=ctx, binary=binary, name="st%d" % k, stacks=st[k::parts], outs=seq.OUTS4, maxcalls=3 if quick else 4, execs=1 if quick else 2, workers=8) for k in range(parts)]
+    jobs = [dict(ctx=ctx, binary=binary, name="st%d" % k, stacks=st[k::parts], outs=seq.OUTS4 if quick else seq.OUTS3, maxcalls=3, execs=1, workers=8) for k in range(parts)]
     mism = seq.run_jobs(ctx, jobs, par=2)
     seq.report(ctx, mism, accept)
     return vlib.finish(ctx, rule="all stacks of depth <= D over %d descriptors; Attempts/Executions/Retries/Hedges, flags and LastResult/LastError read inside the function, every listener and the fallback, compared with the spec's snapshot at that event; "
